@@ -173,6 +173,19 @@ pub fn run(ctx: &Ctx) -> Outcome {
             }
             work(rep, &mut rng, n, idx, all_variants);
         }
+        if !ctx.quick() {
+            // thorough: EVERY n below 10^6 (primary spelling bare and in one context, one rotating variant)
+            let mut n = 10_000 + w as u64;
+            while n < 1_000_000 {
+                if n % 4096 < nw as u64 && ctx.elapsed() > ctx.budget_s * 0.6 {
+                    rep.count("exhaustive_enumeration_cut_by_budget");
+                    break;
+                }
+                work(rep, &mut rng, n, n as usize, false);
+                rep.count("exhaustive_range_numbers_10000_to_999999");
+                n += nw as u64;
+            }
+        }
         let per_worker = n_random / nw as u64;
         for i in 0..per_worker {
             if i % 256 == 0 && ctx.over_budget() {
@@ -200,7 +213,7 @@ pub fn run(ctx: &Ctx) -> Outcome {
             }
         }
     }
-    let rule = "cases = (language, spelled phrase, sentence context); numbers = every n in 0..9999, each 3-digit group value in each of the 4 group positions (contexts rotated by seed), boundary shapes d*10^p+k, digit-biased random n < 10^12; phrase from the independent speller (primary + variants of DESIGN.md section 4); a case is non-trivial when the oracle compared validate/rewrite/occurrence against decimal(n); distinct = distinct (language, phrase, context) hashes";
+    let rule = "cases = (language, spelled phrase, sentence context); numbers = every n in 0..9999 (thorough: every n below 10^6, counter exhaustive_range_numbers_10000_to_999999), each 3-digit group value in each of the 4 group positions (contexts rotated by seed), boundary shapes d*10^p+k, digit-biased random n < 10^12; phrase from the independent speller (primary + variants of DESIGN.md section 4); a case is non-trivial when the oracle compared validate/rewrite/occurrence against decimal(n); distinct = distinct (language, phrase, context) hashes";
     finish(
         ctx,
         rep,
